@@ -34,6 +34,7 @@ func checkC07(ctx *Ctx, r *Report) {
 	c07ConfigOwnership(ctx, r)
 	c07Merge(ctx, r)
 	c07HuntedRules(ctx, r)
+	c07ReferenceByBareName(ctx, r)
 	c07CallbackState(ctx, r)
 	c18Payloads(ctx, r)
 	stickyErrors(ctx, r, "errflow/sticky", func(p *packages.Package) bool {
@@ -1332,4 +1333,84 @@ func c07HuntedRules(ctx *Ctx, r *Report) {
 	r.Count("map accesses in the API-reference collector", joined)
 	r.Floor("map accesses in the API-reference collector", 6)
 	r.OK("siblings/collector-key", "API-reference collector keys", token.NoPos, fmt.Sprintf("%d map accesses scanned for keys joined from two names", joined))
+}
+
+// c07ReferenceByBareName: a reference names an object of a package. The methods of a single *ast.Schema —
+// Resolve(type) and LocateObject(name) — look a bare name up in that one schema: used on a reference without a test
+// that the reference stays in the schema's package they miss the objects of other packages (a union of references
+// to another package lost its discriminator and became `any`) and find the wrong object when a local one has the
+// same name. Every such call outside internal/ast whose argument is (derived from) a reference is dominated by a
+// comparison of the reference's package with the schema's, or the call goes through ast.Schemas.
+func c07ReferenceByBareName(ctx *Ctx, r *Report) {
+	resolve := ctx.LookupMethod("internal/ast", "Schema", "Resolve")
+	locate := ctx.LookupMethod("internal/ast", "Schema", "LocateObject")
+	if resolve == nil || locate == nil {
+		r.Undecided("anchor lost: ast.Schema.Resolve / LocateObject")
+		return
+	}
+	n := 0
+	ctx.AllFuncDecls(func(p *packages.Package, fd *ast.FuncDecl, obj *types.Func) {
+		if fd.Body == nil || ctx.RelPkg(p.PkgPath) == "internal/ast" {
+			return
+		}
+		info := p.TypesInfo
+		parents := parentMap(fd)
+		seen := map[string]int{}
+		ast.Inspect(fd.Body, func(m ast.Node) bool {
+			c, ok := m.(*ast.CallExpr)
+			if !ok || len(c.Args) != 1 {
+				return true
+			}
+			fn := callee(info, c)
+			if fn != resolve && fn != locate {
+				return true
+			}
+			arg := ast.Unparen(c.Args[0])
+			fromRef := fn == resolve
+			if fn == locate {
+				// the name comes out of a reference: x.ReferredType, or a local defined from one
+				txt := exprString(arg)
+				if strings.HasSuffix(txt, ".ReferredType") {
+					fromRef = true
+				}
+				if id, ok := arg.(*ast.Ident); ok {
+					ast.Inspect(fd.Body, func(k ast.Node) bool {
+						if as, ok := k.(*ast.AssignStmt); ok && len(as.Lhs) == 1 && len(as.Rhs) == 1 {
+							if l, ok := as.Lhs[0].(*ast.Ident); ok && objOf(info, l) == objOf(info, id) && strings.HasSuffix(exprString(as.Rhs[0]), ".ReferredType") {
+								fromRef = true
+							}
+						}
+						return true
+					})
+				}
+			}
+			if !fromRef {
+				return true
+			}
+			// `_, taken := schema.LocateObject(name)`: the object is not used, the call only asks whether the name is taken
+			if as, ok := parents[c].(*ast.AssignStmt); ok && len(as.Lhs) == 2 {
+				if id, ok := as.Lhs[0].(*ast.Ident); ok && id.Name == "_" {
+					return true
+				}
+			}
+			n++
+			key := ctx.FuncName(obj) + " looks " + exprString(arg) + " up in one schema"
+			seen[key]++
+			cons := key
+			if seen[key] > 1 {
+				cons = fmt.Sprintf("%s #%d", key, seen[key])
+			}
+			tested := false
+			for _, ctl := range controllingIfs(parents, fd, c) {
+				txt := exprString(ctl.Cond)
+				if strings.Contains(txt, "ReferredPkg") && strings.Contains(txt, "Package") {
+					tested = true
+				}
+			}
+			r.Check(tested, "lookups/reference-by-bare-name", cons, c.Pos(), "under a comparison of the reference's package with the schema's",
+				exprString(c)+" looks the name of a reference up in a single schema without testing that the reference designates that schema's package: an object of another package is not found (the union / alias is handled as if the reference dangled), and a same-named local object is taken for it")
+			return true
+		})
+	})
+	r.Count("single-schema lookups of references", n)
 }
